@@ -1,0 +1,119 @@
+//go:build verif
+
+package main
+
+import (
+	"context"
+	"encoding/json"
+	"fmt"
+
+	"github.com/ludo-technologies/pyscn/internal/analyzer"
+	"github.com/ludo-technologies/pyscn/internal/parser"
+)
+
+func init() {
+	// clone_groups: run the real detector (fragment extraction, pair detection, pair cap,
+	// grouping) on the given Python sources and return BOTH results of the same call: the
+	// reported clone pairs and the clone groups, as indices into the fragment list.
+	//   files: [{path, text}]            sources, fragments are extracted with the base config
+	//   cfg:   CloneDetectorConfig       base detector configuration (missing fields = defaults)
+	//   runs:  [{path, cfg}]             one detector run each; "cfg" overrides fields of the base
+	//                                    configuration (MaxClonePairs, BatchSizeThreshold, BatchSizeLarge,
+	//                                    GroupingMode, GroupingThreshold, KCoreK, LSH*...);
+	//                                    path "detect" = DetectClones (chooses batching itself),
+	//                                    path "lsh"    = DetectClonesWithLSH with UseLSH on.
+	// Result: frags [[file, startLine, startCol, endLine, endCol]] in extraction order and per run
+	// pairs [[i, j, similarity, cloneType]] in the order returned, groups [{id, size, similarity, members}].
+	register("clone_groups", func(raw json.RawMessage) (interface{}, error) {
+		var in struct {
+			Files []analyzer.VerifCloneFile `json:"files"`
+			Cfg   json.RawMessage           `json:"cfg"`
+			Runs  []struct {
+				Path string          `json:"path"`
+				Cfg  json.RawMessage `json:"cfg"`
+			} `json:"runs"`
+		}
+		if err := json.Unmarshal(raw, &in); err != nil {
+			return nil, err
+		}
+		base := *analyzer.DefaultCloneDetectorConfig()
+		if len(in.Cfg) > 0 {
+			if err := json.Unmarshal(in.Cfg, &base); err != nil {
+				return nil, err
+			}
+		}
+		ctx := context.Background()
+		ext := base
+		extractor := analyzer.NewCloneDetector(&ext)
+		var frags []*analyzer.CodeFragment
+		var parseErrs []string
+		p := parser.New()
+		for _, f := range in.Files {
+			pr, err := p.Parse(ctx, []byte(f.Text))
+			if err != nil || pr == nil || pr.AST == nil {
+				parseErrs = append(parseErrs, f.Path)
+				continue
+			}
+			frags = append(frags, extractor.ExtractFragments([]*parser.Node{pr.AST}, f.Path)...)
+		}
+		idx := make(map[*analyzer.CodeFragment]int, len(frags))
+		locs := make([][]interface{}, 0, len(frags))
+		for i, f := range frags {
+			idx[f] = i
+			l := f.Location
+			locs = append(locs, []interface{}{l.FilePath, l.StartLine, l.StartCol, l.EndLine, l.EndCol})
+		}
+		num := func(f *analyzer.CodeFragment) int {
+			if k, ok := idx[f]; ok {
+				return k
+			}
+			return -1
+		}
+		type groupOut struct {
+			ID         int     `json:"id"`
+			Size       int     `json:"size"`
+			Similarity float64 `json:"similarity"`
+			Members    []int   `json:"members"`
+		}
+		type runOut struct {
+			Path     string          `json:"path"`
+			MaxPairs int             `json:"max_pairs"`
+			Pairs    [][]interface{} `json:"pairs"`
+			Groups   []groupOut      `json:"groups"`
+		}
+		runs := make([]runOut, 0, len(in.Runs))
+		for _, r := range in.Runs {
+			cfg := base
+			if len(r.Cfg) > 0 {
+				if err := json.Unmarshal(r.Cfg, &cfg); err != nil {
+					return nil, err
+				}
+			}
+			var pairs []*analyzer.ClonePair
+			var groups []*analyzer.CloneGroup
+			switch r.Path {
+			case "detect":
+				cfg.UseLSH = false
+				pairs, groups = analyzer.NewCloneDetector(&cfg).DetectClones(frags)
+			case "lsh":
+				cfg.UseLSH = true
+				pairs, groups = analyzer.NewCloneDetector(&cfg).DetectClonesWithLSH(ctx, frags)
+			default:
+				return nil, fmt.Errorf("unknown detection path %q", r.Path)
+			}
+			out := runOut{Path: r.Path, MaxPairs: cfg.MaxClonePairs, Pairs: make([][]interface{}, 0, len(pairs)), Groups: make([]groupOut, 0, len(groups))}
+			for _, pr := range pairs {
+				out.Pairs = append(out.Pairs, []interface{}{num(pr.Fragment1), num(pr.Fragment2), pr.Similarity, int(pr.CloneType)})
+			}
+			for _, g := range groups {
+				m := make([]int, 0, len(g.Fragments))
+				for _, f := range g.Fragments {
+					m = append(m, num(f))
+				}
+				out.Groups = append(out.Groups, groupOut{ID: g.ID, Size: g.Size, Similarity: g.Similarity, Members: m})
+			}
+			runs = append(runs, out)
+		}
+		return map[string]interface{}{"frags": locs, "runs": runs, "parse_errors": parseErrs}, nil
+	})
+}
